@@ -91,6 +91,10 @@ func (m *verifRWMutex) note(writer bool, readers, pending int) {
 
 // Lock locks for writing.
 func (m *verifRWMutex) Lock() {
+	if VerifHooks.Yield == nil { // no simulator: exactly the real mutex, no bookkeeping
+		m.mu.Lock()
+		return
+	}
 	verifYield("lock")
 	if !m.canLock() {
 		m.note(false, 0, 1)
@@ -105,12 +109,20 @@ func (m *verifRWMutex) Lock() {
 
 // Unlock unlocks for writing.
 func (m *verifRWMutex) Unlock() {
+	if VerifHooks.Yield == nil { // no simulator: exactly the real mutex, no bookkeeping
+		m.mu.Unlock()
+		return
+	}
 	m.note(false, 0, 0)
 	m.mu.Unlock()
 }
 
 // RLock locks for reading.
 func (m *verifRWMutex) RLock() {
+	if VerifHooks.Yield == nil { // no simulator: exactly the real mutex, no bookkeeping
+		m.mu.RLock()
+		return
+	}
 	verifYield("lock")
 	for i := 0; !m.canRLock() && i < 1<<20; i++ {
 		verifYield("lock.wait")
@@ -121,6 +133,10 @@ func (m *verifRWMutex) RLock() {
 
 // RUnlock undoes a single RLock.
 func (m *verifRWMutex) RUnlock() {
+	if VerifHooks.Yield == nil { // no simulator: exactly the real mutex, no bookkeeping
+		m.mu.RUnlock()
+		return
+	}
 	m.note(false, -1, 0)
 	m.mu.RUnlock()
 }
